@@ -555,9 +555,12 @@ class HttpProxyPlugin(HttpProtocolHandlerPlugin):
         # Requests read out of an intercepted TLS tunnel are relayed
         # without announcing the proxy.
         if not self.request.is_https_tunnel:
-            request.add_headers(
-                [(b'Via', b'1.1 %s' % PROXY_AGENT_HEADER_VALUE)],
-            )
+            via = b'1.1 %s' % PROXY_AGENT_HEADER_VALUE
+            if request.has_header(b'via'):
+                # The request already went through other intermediaries,
+                # append to their list instead of replacing it.
+                via = request.header(b'via') + b', ' + via
+            request.add_headers([(b'Via', via)])
         # Disable args.disable_headers before dispatching to upstream
         #
         # TODO(abhinavsingh): Remove memoryview wrapping here after
